@@ -5,10 +5,9 @@ Require Import SD.ListOps SD.Ordered SD.OrderedLev SD.OrderedHir Props.C07.
 Require Import U.UnordArr U.UAProofs1 U.UAProofs2 U.UAProofs3 U.UAProofs4 U.UAProofs5.
 Require Import M.MapFlat M.MFProofs1 M.MFProofs4 M.MFProofs5.
 Require Import R.AssocList R.SortedMap R.MapRec R.DModel3 R.DProofs4 R.DProofs5 R.DProofs6 R.DProofs7.
+Require Import Inst.DeriveInst.
 
 (* ---- ordered: hirschberg with Z.eqb ---- *)
-Definition odiff (t s: list Z) := Ordered.hirschberg Z.eqb LEVENSHTEIN_CUTOFF DELETE_COST REPLACE_COST INSERT_COST t s 0%Z.
-Definition oapply (d: list (@Ordered.change Z)) (s: list Z) : list Z := match Ordered.apply_script s d with Some r => r | None => s end.
 
 Lemma R_Z_eq (l1 l2: list Z) : Forall2 (OrderedLev.R Z.eqb) l1 l2 -> l1 = l2.
 Proof. intros F. induction F as [|x y l1 l2 H F IH]; [reflexivity|]. f_equal; [|exact IH]. destruct H as [H|H]; [exact H|apply Z.eqb_eq in H; congruence]. Qed.
@@ -25,12 +24,9 @@ Proof.
 Qed.
 
 (* ---- unordered array with Z keys and the identity iteration order ---- *)
-Definition zid (m: list (Z * nat)) := m.
 Lemma zid_perm m : Permutation (zid m) m. Proof. apply Permutation_refl. Qed.
 Lemma zeqb_spec a b : Z.eqb a b = true <-> a = b. Proof. apply Z.eqb_eq. Qed.
 
-Definition udiff (p c: list Z) : option (@UnordArr.udiff Z) := match UnordArr.hashcmp Z.eqb zid p c with Some o => o | None => None end.
-Definition uapply (base: list Z) (d: @UnordArr.udiff Z) := UnordArr.apply Z.eqb zid base d.
 
 Lemma count_perm (l1 l2: list Z) : (forall k, UAProofs1.count Z.eqb k l1 = UAProofs1.count Z.eqb k l2) -> Permutation l1 l2.
 Proof.
@@ -76,10 +72,8 @@ Qed.
 (* ---- flat map with Z keys and values, either mode, identity iteration order, canonical (sorted) map values ---- *)
 Section FlatMap.
 Variable ko : bool.
-Definition mid (m: list (Z * (Z * nat))) := m.
 Lemma mid_perm m : Permutation (mid m) m. Proof. apply Permutation_refl. Qed.
-Definition mdiff (p c: list (Z * Z)) : option (@MapFlat.mdiff Z Z) := match MapFlat.hashcmp Z.eqb Z.eqb mid ko p c with Some o => o | None => None end.
-Definition mapply (p: list (Z * Z)) (d: @MapFlat.mdiff Z Z) : list (Z * Z) := canon (MapFlat.apply Z.eqb mid p d).   (* .collect() into the map type *)
+Notation mdiff := (DeriveInst.mdiff ko).
 
 Lemma lookup_get (l: list (Z * Z)) k : MFProofs1.lookup Z.eqb k l = al_get Z.eqb k l.
 Proof. induction l as [|[k0 v] l IH]; cbn; try rewrite IH; reflexivity. Qed.
